@@ -663,7 +663,12 @@ func main() {
 	in := flag.String("in", "", "behaviours (ndjson)")
 	out := flag.String("out", "", "trace output (ndjson)")
 	par := flag.Int("par", 8, "behaviours replayed concurrently")
+	timed := flag.Bool("timed", false, "input is a list of ChannelTime cases")
 	flag.Parse()
+	if *timed {
+		timedMain(*in, *out)
+		return
+	}
 	f, err := os.Open(*in)
 	if err != nil {
 		fmt.Fprintln(os.Stderr, err)
